@@ -12,6 +12,7 @@ import (
 	re "regexp"
 	"sort"
 	"sync"
+	"unsafe"
 
 	"github.com/go-openapi/spec"
 	"github.com/go-openapi/strfmt"
@@ -76,6 +77,20 @@ type verifPoisonRegistry struct{ strfmt.Registry }
 func (verifPoisonRegistry) ContainsName(string) bool      { return true }
 func (verifPoisonRegistry) Validates(string, string) bool { return false }
 
+// verifOverlay copies the non-zero fields of src over dst and leaves every other field of dst as it is: what a field held
+// during the last use stays there for the next borrower to find, unless the constructor overwrites it.
+func verifOverlay(dst, src any) {
+	d, s := reflect.ValueOf(dst).Elem(), reflect.ValueOf(src).Elem()
+	for i := 0; i < s.NumField(); i++ {
+		if s.Field(i).IsZero() {
+			continue
+		}
+		df := d.Field(i)
+		reflect.NewAt(df.Type(), unsafe.Pointer(df.UnsafeAddr())).Elem().Set(
+			reflect.NewAt(df.Type(), unsafe.Pointer(s.Field(i).UnsafeAddr())).Elem())
+	}
+}
+
 func verifPoison(obj any) {
 	reg := verifPoisonRegistry{}
 	opt := func() *SchemaValidatorOptions {
@@ -95,35 +110,35 @@ func verifPoison(obj any) {
 		s.cachedFieldSchemata = nil
 		s.cachedItemSchemata = nil
 	case *SchemaValidator:
-		*s = SchemaValidator{Path: verifPoisonPath, in: verifPoisonPath, KnownFormats: reg, Options: opt()}
+		verifOverlay(s, &SchemaValidator{Path: verifPoisonPath, in: verifPoisonPath, KnownFormats: reg, Options: opt()})
 	case *objectValidator:
-		*s = objectValidator{Path: verifPoisonPath, In: verifPoisonPath, MaxProperties: i64(), MinProperties: i64(), Required: []string{verifPoisonPath},
-			Properties: map[string]spec.Schema{verifPoisonPath: {}}, PatternProperties: map[string]spec.Schema{"^": {}}, AdditionalProperties: &spec.SchemaOrBool{}, KnownFormats: reg, Options: opt()}
+		verifOverlay(s, &objectValidator{Path: verifPoisonPath, In: verifPoisonPath, MaxProperties: i64(), MinProperties: i64(), Required: []string{verifPoisonPath},
+			Properties: map[string]spec.Schema{verifPoisonPath: {}}, PatternProperties: map[string]spec.Schema{"^": {}}, AdditionalProperties: &spec.SchemaOrBool{}, KnownFormats: reg, Options: opt()})
 	case *schemaSliceValidator:
-		*s = schemaSliceValidator{Path: verifPoisonPath, In: verifPoisonPath, MaxItems: i64(), MinItems: i64(), UniqueItems: true, AdditionalItems: &spec.SchemaOrBool{}, KnownFormats: reg, Options: opt()}
+		verifOverlay(s, &schemaSliceValidator{Path: verifPoisonPath, In: verifPoisonPath, MaxItems: i64(), MinItems: i64(), UniqueItems: true, AdditionalItems: &spec.SchemaOrBool{}, KnownFormats: reg, Options: opt()})
 	case *itemsValidator:
-		*s = itemsValidator{path: verifPoisonPath, in: verifPoisonPath, KnownFormats: reg, Options: opt()}
+		verifOverlay(s, &itemsValidator{path: verifPoisonPath, in: verifPoisonPath, KnownFormats: reg, Options: opt()})
 	case *basicCommonValidator:
-		*s = basicCommonValidator{Path: verifPoisonPath, In: verifPoisonPath, Default: verifPoisonPath, Enum: []interface{}{verifPoisonPath}, Options: opt()}
+		verifOverlay(s, &basicCommonValidator{Path: verifPoisonPath, In: verifPoisonPath, Default: verifPoisonPath, Enum: []interface{}{verifPoisonPath}, Options: opt()})
 	case *HeaderValidator:
-		*s = HeaderValidator{name: verifPoisonPath, KnownFormats: reg, Options: opt()}
+		verifOverlay(s, &HeaderValidator{name: verifPoisonPath, KnownFormats: reg, Options: opt()})
 	case *ParamValidator:
-		*s = ParamValidator{KnownFormats: reg, Options: opt()}
+		verifOverlay(s, &ParamValidator{KnownFormats: reg, Options: opt()})
 	case *basicSliceValidator:
-		*s = basicSliceValidator{Path: verifPoisonPath, In: verifPoisonPath, Default: verifPoisonPath, MaxItems: i64(), MinItems: i64(), UniqueItems: true, KnownFormats: reg, Options: opt()}
+		verifOverlay(s, &basicSliceValidator{Path: verifPoisonPath, In: verifPoisonPath, Default: verifPoisonPath, MaxItems: i64(), MinItems: i64(), UniqueItems: true, KnownFormats: reg, Options: opt()})
 	case *numberValidator:
-		*s = numberValidator{Path: verifPoisonPath, In: verifPoisonPath, Default: verifPoisonPath, MultipleOf: f64(), Maximum: f64(), Minimum: f64(),
-			ExclusiveMaximum: true, ExclusiveMinimum: true, Type: verifPoisonPath, Format: verifPoisonPath, Options: opt()}
+		verifOverlay(s, &numberValidator{Path: verifPoisonPath, In: verifPoisonPath, Default: verifPoisonPath, MultipleOf: f64(), Maximum: f64(), Minimum: f64(),
+			ExclusiveMaximum: true, ExclusiveMinimum: true, Type: verifPoisonPath, Format: verifPoisonPath, Options: opt()})
 	case *stringValidator:
-		*s = stringValidator{Path: verifPoisonPath, In: verifPoisonPath, Default: verifPoisonPath, Required: true, MaxLength: i64(), MinLength: i64(), Pattern: "(" + verifPoisonPath, Options: opt()}
+		verifOverlay(s, &stringValidator{Path: verifPoisonPath, In: verifPoisonPath, Default: verifPoisonPath, Required: true, MaxLength: i64(), MinLength: i64(), Pattern: "(" + verifPoisonPath, Options: opt()})
 	case *schemaPropsValidator:
-		*s = schemaPropsValidator{Path: verifPoisonPath, In: verifPoisonPath, KnownFormats: reg, Options: opt()}
+		verifOverlay(s, &schemaPropsValidator{Path: verifPoisonPath, In: verifPoisonPath, KnownFormats: reg, Options: opt()})
 	case *formatValidator:
-		*s = formatValidator{Path: verifPoisonPath, In: verifPoisonPath, Format: verifPoisonPath, KnownFormats: reg, Options: opt()}
+		verifOverlay(s, &formatValidator{Path: verifPoisonPath, In: verifPoisonPath, Format: verifPoisonPath, KnownFormats: reg, Options: opt()})
 	case *typeValidator:
-		*s = typeValidator{Path: verifPoisonPath, In: verifPoisonPath, Type: spec.StringOrArray{verifPoisonPath}, Format: verifPoisonPath, Options: opt()}
+		verifOverlay(s, &typeValidator{Path: verifPoisonPath, In: verifPoisonPath, Type: spec.StringOrArray{verifPoisonPath}, Format: verifPoisonPath, Options: opt()})
 	case *spec.Schema:
-		*s = spec.Schema{SchemaProps: spec.SchemaProps{Description: verifPoisonPath, Default: verifPoisonPath, Type: spec.StringOrArray{verifPoisonPath}}}
+		verifOverlay(s, &spec.Schema{SchemaProps: spec.SchemaProps{Description: verifPoisonPath, Default: verifPoisonPath, Type: spec.StringOrArray{verifPoisonPath}}})
 	}
 }
 
